@@ -1,6 +1,6 @@
 # C08 - coroutine mutex: FIFO hand-off and no lost request
 import re
-from ..core import norm, relloc, live, calls, evs, Broken, value_origin, Tracer, fmt_trace, rooted, has_back_edge, tests, cond_event
+from ..core import var_def, norm, relloc, live, calls, evs, Broken, value_origin, Tracer, fmt_trace, rooted, has_back_edge, tests, cond_event
 from .. import atomic
 from ..rules import *
 from . import C07
@@ -68,6 +68,7 @@ def try_lock(ctx, db, rid):
                     won = it.val; break
             cons = [c for c in calls(tr) if c.k == 'construct' and norm(c.get('callee')) == 'cocls::mutex::ownership::ownership' and not c.get('copy_or_move')]
             arg = (cons[-1].get('args') or [{}])[0].get('path') if cons else None
+            arg = resolve_select(arg, tr[:tr.index(cons[-1])]) if cons and arg else arg
             if won is True:
                 ny += 1
                 if arg != 'this':
@@ -87,8 +88,25 @@ def release_returns_owner(ctx, db, rid):
     ctx.rule(rid, 'COUNT', 'the hand-over functors resume the waiter they receive exactly once; ownership::release merges that resumption into the suspend point it returns '
              '(the caller decides when the new owner runs), the deleter lets it run at once', floor=2)
     n = 0
+    def functors(parent):
+        out = []
+        for f_ in db.fns(parent)[:1]:
+            for g_ in helper_bodies(db, f_):
+                for e_ in g_.events():
+                    if e_.k == 'call' and norm(e_.get('callee')) == 'cocls::mutex::unlock':
+                        for a_ in e_.get('args') or []:
+                            p_ = a_.get('path') or ''
+                            m_ = re.fullmatch(r'(?:move|forward)?\(?local:(\w+)\)?', p_)
+                            if m_:
+                                p_ = (var_def(g_, m_.group(1), e_.get('loc')) or {}).get('init') or p_
+                            if p_.startswith('lambda@'):
+                                out += db.closure_instances(g_, p_[7:])
+                            elif 'fn:' in p_:
+                                nm = re.search(r'fn:(.+?)\)*$', p_).group(1)
+                                out += [x for x in db.all_instances() if x['nname'] == norm(nm)]
+        return out
     for parent, merged in (('cocls::mutex::ownership::release', True), ('cocls::mutex::ownership_deleter::operator()', False)):
-        for lf in lambdas_of(db, parent):
+        for lf in functors(parent) or lambdas_of(db, parent):
             n += 1
             rs = [e for e in lf.events() if e.k == 'call' and norm(e.get('callee')) == 'cocls::awaiter::resume']
             ok = len(rs) == 1 and rs[0].get('recv', '').startswith('param:') and not has_back_edge(lf)
@@ -102,5 +120,5 @@ def release_returns_owner(ctx, db, rid):
         raise Broken('hand-over functors of ownership::release / ownership_deleter not found')
     for f in db.need('cocls::mutex::ownership::release')[:1]:
         rets = [e for e in f.events() if e.k == 'return']
-        ok = bool(rets) and all((r.get('path') or '') in ('local:ret', 'ctor(local:ret)', 'ctor(move(local:ret))', 'move(local:ret)') for r in rets)
+        ok = bool(rets) and all(re.fullmatch(r'(ctor\()?(move\()?local:\w+\)*', r.get('path') or '') for r in rets)
         ctx.ob(rid, f, f['key'], ok, 'release() returns the suspend point the functor filled', desc='release() does not return the filled suspend point')
